@@ -4,7 +4,7 @@
 # /verif/seeded/<Cxx>-<variant>/ .
 set -u
 ID=$1; V=$2
-WT=/tmp/wt/$ID
+WT=${WTROOT:-/tmp/wt}/$ID
 SD=$WT/_seed/$V
 OUT=/verif/seeded/$ID-$V
 cd $WT || exit 2
@@ -12,10 +12,10 @@ git checkout -q -- .
 [ -f $SD/patch.diff ] || { echo "$ID-$V: no patch"; exit 2; }
 git apply --check $SD/patch.diff || { echo "$ID-$V: patch does not apply"; exit 1; }
 # demo on pristine
-P0=$( /venv/bin/python $SD/demo.py >/tmp/wt/$ID.$V.pristine.log 2>&1; echo $? )
+P0=$( /venv/bin/python $SD/demo.py >${WTROOT:-/tmp/wt}/$ID.$V.pristine.log 2>&1; echo $? )
 git apply $SD/patch.diff
 T=$( /venv/bin/python -m pytest -q -p no:cacheprovider -x tests 2>&1 | tail -1 )
-P1=$( timeout 600 /venv/bin/python $SD/demo.py >/tmp/wt/$ID.$V.changed.log 2>&1; echo $? )
+P1=$( timeout 600 /venv/bin/python $SD/demo.py >${WTROOT:-/tmp/wt}/$ID.$V.changed.log 2>&1; echo $? )
 git checkout -q -- .
 echo "$ID-$V: pristine_demo_rc=$P0 changed_demo_rc=$P1 tests='$T'"
 if [ "$P0" = "0" ] && [ "$P1" != "0" ] && echo "$T" | grep -q "301 passed"; then
@@ -32,5 +32,5 @@ json.dump(m,open(dst,"w"),indent=1)
 PY
   echo "$ID-$V: KEPT"
 else
-  echo "$ID-$V: REJECTED"; tail -3 /tmp/wt/$ID.$V.changed.log
+  echo "$ID-$V: REJECTED"; tail -3 ${WTROOT:-/tmp/wt}/$ID.$V.changed.log
 fi
